@@ -8,7 +8,7 @@ Open Scope N_scope.
 
 Record blk := mkB { b_id : N; b_parent : N; b_signer : N; b_com : bool; b_score : N (* header TotalScore *) }.
 
-Definition id_shift : N := 26959946667150639794667015087019630673637144422540572481103610249216. (* 2^224 *)
+Definition id_shift : N := 4294967296. (* 2^32: ids are handed to the model compressed to number * 2^32 + rank (order- and number-preserving) *)
 Definition idnum (id : N) : N := id / id_shift.          (* block.Number(id) *)
 Definition mkid (num tail : N) : N := num * id_shift + tail.
 Definition b_num (b : blk) : N := idnum (b_id b).
